@@ -17,6 +17,7 @@ Streams (all driven by the one seeded PRNG):
              every radix, all strings of length <= 3 over a 7-letter alphabet, all slices of length <= 3 over
              {0,1,r-1,r,255}; all leading-zero counts 0..40; all lengths on configurations up to 192 bits."""
 from .common import *
+import os
 from .ops_c10 import OPS
 
 PROP, BIN, RUNMOD, RUNFN = "C10", "c10", "RunC10", "run_C10"
@@ -334,22 +335,25 @@ def sweep_cases(rng):
             continue
         bits = 8 * n
         M = 1 << bits
-        for r in (10, others[n % len(others)], (2, 4, 8, 16, 32)[n % 5]):
+        H = M >> 1
+        # the model is quadratic in the width: full set up to 3200 bits, radix 10 and the three sharpest strings above
+        full = n <= 400
+        for r in ((10, others[n % len(others)], (2, 4, 8, 16, 32)[n % 5]) if full else (10,)):
             mx = numeral(M - 1, r)
             L = len(mx)
             top = r ** (L - 1)
-            strs = [mx, numeral(M, r), numeral(top, r), [DIGS[r - 1]] * L, [DIGS[r - 1]] * (L - 1) if L > 1 else [48],
-                    [48, 48] + mx, numeral(M - 1 - rng.below(1 << min(bits, 40)), r), numeral(M + rng.below(1 << min(bits, 40)), r),
-                    numeral(top + rng.below(top), r)]
+            strs = [mx, numeral(M, r), [DIGS[r - 1]] * L]
+            if full:
+                strs += [numeral(top, r), [DIGS[r - 1]] * (L - 1) if L > 1 else [48], [48, 48] + mx,
+                         numeral(M - 1 - rng.below(1 << min(bits, 40)), r), numeral(top + rng.below(top), r)]
             for s_ in strs:
                 out.append(line("U.from_str_radix", 8, n, s_, r))
-            if r == 10 or n % 7 == 0:
-                ds = [DIGS.index(c) for c in mx]
-                out.append(line("U.from_radix_be", 8, n, ds, r))
+            if full and (r == 10 or n % 7 == 0):
+                out.append(line("U.from_radix_be", 8, n, [DIGS.index(c) for c in mx], r))
                 out.append(line("U.from_radix_be", 8, n, [DIGS.index(c) for c in numeral(M, r)], r))
-            H = M >> 1
-            sg = [numeral(H - 1, r), numeral(H, r), [45] + numeral(H, r), [45] + numeral(H + 1, r), [43] + numeral(H - 1, r),
-                  [45] + numeral(H - rng.below(1 << min(bits - 1, 40)), r)]
+            sg = [numeral(H, r), [45] + numeral(H, r)]
+            if full:
+                sg += [numeral(H - 1, r), [45] + numeral(H + 1, r), [43] + numeral(H - 1, r)]
             for s_ in sg:
                 out.append(line("I.from_str_radix", 8, n, s_, r))
     return out
@@ -362,6 +366,8 @@ def gen(rng, tier):
     fixed = fixed_cases()
     if thorough:
         out += sweep_cases(rng)
+        if os.environ.get("VERIF_ONLY_SWEEP") == "1":       # development knob: the width sweep alone
+            return out
     for (w, n) in configs:
         bits = w * n
         big = bits > 1100
